@@ -208,6 +208,44 @@ def grammar_case(ctx, rng, gen):
         ctx.rec.sample({'text': text[:200], 'expected': want})
 
 
+CTE_MAINS = [('select * from c0', 'SELECT'), ('SELECT 1', 'SELECT'),
+             ('insert into t select * from c0', 'INSERT'),
+             ('update t set a = 1 where b in (select x from c0)', 'UPDATE'),
+             ('delete from t where a in (select x from c0)', 'DELETE'),
+             ('insert into t (a) values (1)', 'INSERT')]
+
+
+def cte_shape_case(ctx, rng):
+    """Hand-built WITH statements: 1-5 definitions, comments behind (and
+    in front of) the separating commas, now and then one body that nests
+    parentheses 3-150 deep; the main statement decides the type."""
+    n = rng.choice([1, 2, 3, 3, 4, 5])
+    deep = rng.randrange(n) if rng.random() < 0.4 else -1
+    depth = rng.choice([3, 40, 63, 64, 70, 100, 150])
+    commented = rng.random() < 0.7
+    text = rng.choice(['with ', 'WITH ', 'with recursive ', 'With\n'])
+    for i in range(n):
+        if i:
+            if commented and rng.random() < 0.3:
+                text += rng.choice([' /* c */', ' /* , */ '])
+            text += ','
+            text += rng.choice(['-- x\n', ' -- with, select\n  ', '/* c */',
+                                ' /* insert */ ', '--\n']) \
+                if commented and rng.random() < 0.75 \
+                else rng.choice([' ', '\n', '\n  '])
+        body = 'select %d as x' % i
+        if i == deep:
+            body = 'select %s1%s as x' % ('(' * depth, ')' * depth)
+        text += 'c%d%s (%s)' % (i, rng.choice([' as', ' AS', ' As']), body)
+    main, want = rng.choice(CTE_MAINS)
+    text += rng.choice([' ', '\n', '\n\n', ' /* main */ ']) + main \
+        + rng.choice(['', ';'])
+    judge(ctx, 'get_type_grammar', text, want,
+          {'kind': 'cte-shape', 'n': n, 'depth': depth if deep >= 0 else 0})
+    ctx.rec.nontrivial(('cte-shape', n, commented, deep >= 0 and depth, want))
+    ctx.rec.hist('grammar_kind', 'cte-shape:' + want)
+
+
 def shard(ctx):
     rng = ctx.rng
     table = dml_ddl_words()
@@ -228,7 +266,9 @@ def shard(ctx):
     k = 0
     while ctx.running():
         k += 1
-        if k % 9 == 0:
+        if k % 25 == 7:
+            cte_shape_case(ctx, rng)
+        elif k % 9 == 0:
             script_case(ctx, rng, gen)
         elif k % 3 == 0:
             grammar_case(ctx, rng, gen)
